@@ -119,7 +119,8 @@ PROPS = {
         title='Kinds, typed accessors and grid construction are coherent',
         verus=[('u_kinds', [r'^Value::is_', r'^Value::has_value$', r'^kind_from_value$', r'^try_from_value_for_', r'^lemma_exactly_one_kind$',
                             r'^check_exactly_one_predicate$', r'^kind_to_name$', r'^kind_from_name$']),
-               ('u_getters', [r'^Dict::get_', r'^Dict::has_'])],
+               ('u_getters', [r'^Dict::get_', r'^Dict::has_']),
+               ('u_gridmk', [r'^Grid::make_from_dicts_with_meta$'])],
         kani=[dict(harness='k_kind_u8', klass='complete', schema=['u8'], family='kind-u8', target='HaystackKind::try_from(u8)'),
               dict(harness='k_kind_code_roundtrip', klass='complete', schema=['u8'], family='kind-u8', target='HaystackKind as u8'),
               dict(harness='k_kind_name_roundtrip', klass='complete', schema=['u8'], family='kind-name', target='HaystackKind <-> &str')],
@@ -132,7 +133,7 @@ PROPS = {
                     'code and name tables. The name table is also proved in Verus for strings of any length: kind_name is the list of Haystack kind names typed in from the '
                     'specification; the real From<HaystackKind> for &str returns kind_name(k), and the real TryFrom<&str> returns Ok(k) only for kind_name(k) and for every kind '
                     'name (so the table is a bijection; this replaces the former bounded Kani harness over strings of at most 9 bytes).'),
-        not_decided=('Grid::make_from_dicts (HashSet, nested closures, sort_by: outside both tools); BTreeMap lookup itself (Dict::get is modelled by an uninterpreted function); '
+        not_decided=('Grid::make_from_dicts (HashSet, nested closures, sort_by: outside both tools; named grid_from_dicts and decided only by the bounded enumerators -- the real Grid::make_from_dicts_with_meta is proved to return that grid with exactly the given meta: same rows, columns and version); BTreeMap lookup itself (Dict::get is modelled by an uninterpreted function); '
                      'Display for HaystackKind agreeing with the name table (core::fmt).'),
         technique='contract-based deductive verification: Verus on extracted real bodies + Kani complete finite-domain harnesses',
     ),
